@@ -136,6 +136,33 @@ func (e *Engine) VerifyFunction(fn *ssa.Function) (rep *FuncReport) {
 		}
 		r.instantiate(fr, st, ct, env)
 	}
+	// invariants of the package's global tables: assumed when this function claims a frame
+	// (its stores and map updates are then proved not to touch them)
+	var ginv []*Contract
+	if pk := FnPkg(fn); pk != nil {
+		prefix := "global:" + pk.Pkg.Path() + "."
+		var keys []string
+		for k := range e.Contracts {
+			if strings.HasPrefix(k, prefix) {
+				keys = append(keys, k)
+			}
+		}
+		sort.Strings(keys)
+		for _, k := range keys {
+			ginv = append(ginv, e.Contracts[k])
+		}
+	}
+	if fn.Name() != "init" && ct != nil && ct.AssignsSet {
+		env := r.newEnv(fr, st)
+		env.ensMode = true
+		for _, g := range ginv {
+			g.Used = true
+			for _, inv := range g.Ensures {
+				r.assumeClause(env, "true", inv.Expr, inv.Text)
+			}
+			r.assumed["global invariant (proved on the package initialiser): "+g.Key] = true
+		}
+	}
 	// vacuity canary: the preconditions must be satisfiable
 	vac := r.oblige(name, "vacuity", "true", "false", "preconditions and typing facts are satisfiable (must be sat)", fn.Pos())
 	_ = vac
@@ -170,6 +197,16 @@ func (e *Engine) VerifyFunction(fn *ssa.Function) (rep *FuncReport) {
 		for _, en := range ct.Ensures {
 			t := r.specBool(env, en.Expr, en.Text)
 			r.oblige(name, "ensures", outReach, t, en.Text, fn.Pos())
+		}
+	}
+	if fn.Name() == "init" && outReach != "false" {
+		env := r.newEnv(fr, outSt)
+		env.ensMode = true
+		for _, g := range ginv {
+			g.Used = true
+			for _, inv := range g.Ensures {
+				r.oblige(name, "global-invariant", outReach, r.specBool(env, inv.Expr, inv.Text), strings.TrimPrefix(g.Key, "global:")+": "+inv.Text, fn.Pos())
+			}
 		}
 	}
 	e.finish(r, rep)
